@@ -57,7 +57,7 @@ fn strat() -> impl Strategy<Value = Triple> {
 fn main() {
     let check = Check::new("C40", "exploration");
     check.rule("triples of runtime values (depth<=3, every variant, NaN/-0.0, permuted maps; b/c are forced 'twisted' copies of a in 7/8 of cases); oracle: reflexive, symmetric, transitive, a==b => hash(a)==hash(b) for std SipHash and FxHasher; non-trivial = some pair is equal but not structurally identical (different map order / zero sign / NaN payload)");
-    check.explore("eq_hash", strat, 40_000, 1_000_000, |t: &Triple| {
+    check.explore("eq_hash", strat, 200_000, 2_000_000, |t: &Triple| {
         let (a, b, c) = (t.a.to_value(), t.b.to_value(), t.c.to_value());
         let vals = [&a, &b, &c];
         for x in vals {
